@@ -1,17 +1,21 @@
 (** C06 — Resampling returns exactly n valid indices and is unbiased.
-    Only statements here; proofs live in Proofs/Resample.v and Proofs/ResampleQ.v. *)
+    Only statements here; proofs live in Proofs/Resample*.v. The routine is [sysres2]: teeth clipped to their cell
+    (np.minimum with nextafter((i+1)/size, 0)), inner loop bounded at the last non-zero weight; it is the comb of the
+    closed-form theorems run on the weights up to that index. *)
 From Coq Require Import List Bool Arith ZArith QArith Qround.
-From Tempest Require Import Base.Ops Model.Resample Proofs.Resample Proofs.ResampleQ Proofs.ResampleU Link.Resample.
+From Tempest Require Import Base.Ops Model.Resample Proofs.Resample Proofs.ResampleQ Proofs.ResampleU Proofs.ResampleZ Link.Resample.
 Import ListNotations.
 
 (** For every arithmetic instance (exact rationals and binary64 alike), every non-empty
     weight vector, every value of the sum and every offset, systematic resampling returns
-    exactly [size] indices, each valid, in non-decreasing order. *)
+    exactly [size] indices, each valid and not beyond the last non-zero weight, in non-decreasing order. *)
 Theorem C06_exactly_n_valid :
   forall T (o : Ops T) size (w : list T) s sqrteps u0, w <> [] ->
-  exists idx, sysres_with_sum o true size w s sqrteps u0 = Some idx
-    /\ length idx = size /\ (forall x, In x idx -> (x < length w)%nat) /\ nondecreasing idx.
-Proof. exact @sysres_total_valid. Qed.
+  exists idx, sysres2_with_sum o true size w s sqrteps u0 = Some idx
+    /\ length idx = size
+    /\ (forall x, In x idx -> (x < length (upto_last_nonzero o (if renorm_needed o s sqrteps then renorm o w s else w)))%nat)
+    /\ (forall x, In x idx -> (x < length w)%nat) /\ nondecreasing idx.
+Proof. exact @sysres2_total_valid. Qed.
 Print Assumptions C06_exactly_n_valid.
 
 (** Closed form of the comb over Q: tooth i receives the index reached from the start. *)
@@ -31,17 +35,25 @@ Proof. exact reach_characterisation. Qed.
 Print Assumptions C06_characterisation.
 
 (** Copies of every index are floor(n w_k) or ceil(n w_k): for every n >= 1, every non-negative
-    weight vector of exact sum 1, every offset u0 in [0,1). *)
+    weight vector of exact sum 1 (zero weights anywhere, including at the end), every offset u0 in [0,1). *)
 Theorem C06_floor_ceil :
-  forall n x r sqrteps u0,
-  (0 < n)%nat -> (0 <= x)%Q -> nonneg r -> (0 <= sqrteps)%Q -> (0 <= u0)%Q -> (u0 < 1)%Q ->
-  (sum_list QOps (x :: r) == 1)%Q ->
-  exists idx, sysres QOps true n (x :: r) sqrteps u0 = Some idx /\
-    forall k, (k <= length r)%nat ->
-      (Qfloor (iQ n * nth k (x :: r) 0)%Q <= Z.of_nat (copies idx k)
-       <= Qceiling (iQ n * nth k (x :: r) 0)%Q)%Z.
-Proof. exact sysres_floor_ceil. Qed.
+  forall n w sqrteps u0,
+  (0 < n)%nat -> nonneg w -> (0 <= sqrteps)%Q -> (0 <= u0)%Q -> (u0 < 1)%Q ->
+  (sum_list QOps w == 1)%Q ->
+  exists idx, sysres2 QOps true n w sqrteps u0 = Some idx /\
+    forall k, (k < length w)%nat ->
+      (Qfloor (iQ n * nth k w 0)%Q <= Z.of_nat (copies idx k) <= Qceiling (iQ n * nth k w 0)%Q)%Z.
+Proof. exact sysres2_floor_ceil. Qed.
 Print Assumptions C06_floor_ceil.
+
+(** An index of weight zero is never selected. *)
+Theorem C06_zero_weight_never_selected :
+  forall n w sqrteps u0 k,
+  (0 < n)%nat -> nonneg w -> (0 <= sqrteps)%Q -> (0 <= u0)%Q -> (u0 < 1)%Q -> (sum_list QOps w == 1)%Q ->
+  (k < length w)%nat -> (nth k w 0 == 0)%Q ->
+  exists idx, sysres2 QOps true n w sqrteps u0 = Some idx /\ copies idx k = 0%nat.
+Proof. exact sysres2_skips_zero_weights. Qed.
+Print Assumptions C06_zero_weight_never_selected.
 
 (** Unbiasedness, measure-free: for weights (x :: r) >= 0 with exact sum 1 and n >= 1 teeth, the offsets u0 in [0,1)
     for which tooth i of the comb's output is index k form exactly the half-open interval [lo i k, hi i k), and the
@@ -76,7 +88,7 @@ Print Assumptions C06_multinomial_in_range.
     tie rule (strict [>]) is refuted on it: with u0 = 0, n = 2, w = [1/2;1/2] the strict rule
     copies index 0 twice (floor = ceil = 1). *)
 Example C06_floor_ceil_instance :
-  sysres QOps true 2 [1#2; 1#2]%Q (1#100000000)%Q 0%Q = Some [0; 1]%nat.
+  sysres2 QOps true 2 [1#2; 1#2]%Q (1#100000000)%Q 0%Q = Some [0; 1]%nat.
 Proof. vm_compute. reflexivity. Qed.
 
 Section StrictRule.
